@@ -117,6 +117,14 @@ impl C02 {
     out.eval("l2s");
     let l = lunlist();
     let k = [("ly", y), ("lm", m), ("ld", d)];
+    // LunarDay::new and the panicking LunarDay::from_ymd accept exactly the same triples
+    if d >= 0 {
+      let a = lunar_new(y, m, d).map(|x| lymd(&x));
+      let b = guard(|| LunarDay::from_ymd(y as isize, m as isize, d as usize)).map(|x| lymd(&x));
+      if a.is_ok() != b.is_ok() || (a.is_ok() && a.clone().ok() != b.clone().ok()) {
+        out.fail(env, viol("l2s", "constructors_disagree", case, &k, lfmt((y, m, d)), format!("LunarDay::new -> {:?}", a.map(lfmt)), format!("LunarDay::from_ymd -> {:?}", b.map(lfmt))));
+      }
+    }
     let valid_month = l.pos(y, m).is_some();
     if !valid_month {
       // a month the calendar does not have must be refused
